@@ -85,6 +85,11 @@ func runC09(e *Env) Outcome {
 		// buffer), a pure decode/build defect outside this property that makes
 		// the full value unusable as reference.
 		o.Records = false
+		// Forward references are left out as well: until its marker arrives a
+		// forward reference has no value, so "prefix" and "completely decoded"
+		// are not defined by the property for the positions that hold one (the
+		// builder keeps a nil there and fills it in later).
+		o.ForwardRefs = false
 		if f == gen.CTE {
 			o.TopContainer = true
 		}
